@@ -12,18 +12,6 @@ Unset Printing Implicit Defensive.
 Import GRing.Theory Num.Theory.
 Local Open Scope ring_scope.
 
-(* closes goals that are equal as sums of atoms (abelian-group reasoning, entry by entry) *)
-Ltac mx_atoms :=
-  repeat match goal with
-         | |- context [?A *m ?B] => let X := fresh "X" in set X := (A *m B); clearbody X
-         end.
-Ltac mx_entries :=
-  repeat match goal with
-         | |- context [@fun_of_matrix _ _ _ ?A ?i ?j] =>
-             let x := fresh "x" in set x := (@fun_of_matrix _ _ _ A i j); clearbody x
-         end.
-Ltac mx_abel := mx_atoms; apply/matrixP=> ? ?; rewrite !mxE; mx_entries; ring.
-
 Section SmootherProofs.
 Variable F : realFieldType.
 Variables (flog : F -> F) (flog2pi : F).
